@@ -261,6 +261,21 @@ func dischargeAll(obls []*Obligation, dir string, timeout time.Duration, tier st
 				// reachability queries are satisfiable queries over quantified assumptions: solvers either answer at
 				// once or never; a short limit keeps the thorough tier from waiting for them
 				r = solve(o.script, dir, o.Name, 10*time.Second, mt, false)
+			} else if tier != "thorough" && canCaseSplit(o) {
+				// a quantified goal about a slice that grew in the loop: a short whole attempt, then the proof by cases
+				// (each case is usually decided in a second or two), and only then the long whole attempt
+				short := 12 * time.Second
+				if short > timeout {
+					short = timeout
+				}
+				r = solve(o.script, dir, o.Name, short, mt, false)
+				if r.answer != "unsat" && r.answer != "sat" {
+					if by := caseSplit(o, dir, timeout); by != "" {
+						r = solveResult{answer: "unsat", solver: by}
+					} else {
+						r = solve(o.script, dir, o.Name, timeout, mt, false)
+					}
+				}
 			} else {
 				r = solve(o.script, dir, o.Name, timeout, mt, tier == "thorough")
 			}
@@ -334,6 +349,10 @@ var reLoopSlice = regexp.MustCompile(`\(declare-const (lh_\w+) Slice\)`)
 // caseSplit: proof by cases for a goal "forall k: Int. body" that no solver decides as a whole: the bound variable
 // becomes a constant q and the obligation is shown once under q < len(s) and once under q >= len(s), for a slice s
 // that is a loop-head value (the typical split after an append inside the loop). Both queries must be unsat.
+func canCaseSplit(o *Obligation) bool {
+	return o.prefix != "" && strings.HasPrefix(o.goal, "(forall ((") && reLoopSlice.MatchString(o.prefix)
+}
+
 func caseSplit(o *Obligation, dir string, timeout time.Duration) string {
 	if os.Getenv("GOVC_DEBUG") != "" {
 		fmt.Fprintf(os.Stderr, "caseSplit %s: prefix=%d goal=%.60s\n", o.Name, len(o.prefix), o.goal)
